@@ -2,6 +2,8 @@
 # usage: tools/try_mutation.sh <patch.diff> <Cxx> [more Cxx...] — apply to /repo, run quick checks, undo
 patch="$1"; shift
 git -C /repo apply "$patch" || exit 2
+mkdir -p /verif/work/mut-evidence
+export VERIF_EVIDENCE_DIR=/verif/work/mut-evidence
 for p in "$@"; do
   /verif/check "$p" --tier quick 2>&1 | grep -E "^(VIOLATION|OK|KNOWN)" | head -3
 done
